@@ -41,6 +41,10 @@ def db():
         atexit.register(shutil.rmtree, d, True)
         _st['db'] = OAGDatabase(str(d / 'm.sqlite'), 2019)
         _st['line'] = 10
+        # what a row "records" is what ANOTHER connection to the database file finds once the call has returned
+        import sqlite3
+
+        _st['ro'] = sqlite3.connect(str(d / 'm.sqlite'))
     return _st['db']
 
 
@@ -108,11 +112,17 @@ def run_case(case):
         line = _st['line']
         label = f'row {r["o"]}-{r["d"]} eff {r["from"]}..{r["to"]} (400 = open) days {r["days"]} dep {r["dep"]} arr {r["arr"]} (+{r["arrday"]}d) stated distance {r["pct"]}% of {r["gc"]} km, {r["skip"]}'
         devs = []
-        cur = d._conn.cursor()
+        cur = _st['ro'].cursor()
         before = cur.execute('SELECT COALESCE(MAX(id), 0) FROM flights').fetchone()[0]
         try:
             e = CSVEntry.from_csv_row(csv_row(r), line)
-            ok = e is not None and d.add(e)
+            # Schedule.tla ImportForms: a row is added on its own (add commits) or as part of a batch (add without
+            # commit, then commit) - rows take the two forms in turn
+            if line % 2 == 0:
+                ok = e is not None and d.add(e)
+            else:
+                ok = e is not None and d.add(e, commit=False)
+                d.commit()
         except Exception as ex:
             d._conn.rollback()
             return [(f'import-raised-{type(ex).__name__}:{"open-range" if 400 in (r["from"], r["to"]) else "closed-range"}', f'{label}: import raised {type(ex).__name__}: {ex}')]
